@@ -555,6 +555,48 @@ def _mc_eq(prog):
     return mc_eq(prog)
 
 
+def pd_field(prog: Program) -> RuleResult:
+    """A relation is identified by (source, target, field). The field of an *inferred* relation is looked up in the class diagram for the
+    type of the instance - for an instance of a subclass that is the subclass's own wrapper of the inherited field, which is not equal to the
+    wrapper the descriptor was declared with (WrappedField compares class and field). Asserted and inferred relations over the same managed
+    field must meet in one identity: either the relation brings the field to the descriptor's own wrapper when it is built, or every
+    construction site takes the field from a descriptor. Otherwise the inverse of the inverse of e.member_of.append(c) is 'new', is
+    written back into the field, and the append that triggered it adds c a second time."""
+    r = RuleResult("PD-FIELD", "relations over one managed field have one identity, whichever wrapper of the field they were built from", floor=1)
+    rel = prog.cls("property_descriptor_relation.PropertyDescriptorRelation")
+    pi = rel.methods.get("__post_init__")
+    canon = False
+    if pi is not None:
+        for x in walk_local(pi.node):
+            if isinstance(x, ast.Assign) and any(is_self_attr(t, "wrapped_field") for t in x.targets):
+                v = x.value
+                # <descriptor>.wrapped_field, the descriptor read from the field given (directly or through one local)
+                if isinstance(v, ast.Attribute) and v.attr == "wrapped_field":
+                    base = v.value
+                    if isinstance(base, ast.Name):
+                        defs = [y.value for y in walk_local(pi.node) if isinstance(y, ast.Assign) and any(isinstance(t, ast.Name) and t.id == base.id for t in y.targets)]
+                        base = defs[0] if len(defs) == 1 else base
+                    if "property_descriptor" in src(base):
+                        canon = True
+    sites = []
+    for g in prog.functions.values():
+        if ".property_descriptor." not in g.qual:
+            continue
+        for c in calls_in(g.node):
+            nm = src(c.func)
+            if nm in ("PropertyDescriptorRelation", "self.__class__", "type(self)") and len(c.args) >= 3 and (nm == "PropertyDescriptorRelation" or (g.cls is not None and prog.is_subclass(g.cls.qual, rel.qual))):
+                sites.append((g, c))
+    if not sites:
+        raise AnalysisError("PD-FIELD: no construction site of PropertyDescriptorRelation found")
+    loose = [(g, c) for g, c in sites if not (src(c.args[2]).endswith("self.wrapped_field") and g.cls is not None and not prog.is_subclass(g.cls.qual, rel.qual))]
+    r.check(canon or not loose, "PropertyDescriptorRelation#field-identity", site(pi) if pi is not None else site(loose[0][0], loose[0][1]),
+            f"{len(sites)} construction sites, {len(loose)} with a field looked up for the instance's type", "the relation is brought to the descriptor's own wrapper of the field when it is built",
+            f"{len(loose)} construction site(s) (e.g. {src(loose[0][1])[:70] if loose else ''}) take the field from the class diagram's wrapper for the instance's type and nothing brings it to "
+            "the descriptor's own wrapper: for an instance of a subclass the inferred inverse-of-inverse differs from the asserted relation, so Employee('e').member_of.append(c) "
+            "leaves [c, c] in the field")
+    return r
+
+
 def _rel_edges(prog):
     # the closure is computed over the relations the graph hands out: one hidden behind a parallel edge is a premise that is never used
     from .c14 import rel_edges
@@ -563,4 +605,4 @@ def _rel_edges(prog):
 
 
 def run(prog: Program, tier: str) -> List[RuleResult]:
-    return [_rel_edges(prog), pd_closure(prog), pd_owner(prog), pd_supers(prog), _mc_eq(prog), pd_replace(prog), pd_init(prog), user_truth(prog, ["property_descriptor.property_descriptor", "property_descriptor.monitored_container", "property_descriptor.property_descriptor_relation"], 2)]
+    return [_rel_edges(prog), pd_field(prog), pd_closure(prog), pd_owner(prog), pd_supers(prog), _mc_eq(prog), pd_replace(prog), pd_init(prog), user_truth(prog, ["property_descriptor.property_descriptor", "property_descriptor.monitored_container", "property_descriptor.property_descriptor_relation"], 2)]
